@@ -109,13 +109,17 @@ def run_shard(campaign, shard, nshards, seed, tier):
             lc.run_case(part, campaign, case, oracle=oracle_layer, theorem=THEOREMS + '.C09_ignore')
             part.sample({'ops': case['ops'][:6], 'address': case['insts'][0]['txa']})
     elif campaign == 'functional':
-        combos = [(tx_dl, mode, ml) for tx_dl in TX_DLS for mode in MODES for ml in (None, 4, 8, 12, 16, 64) if ml is None or ml <= tx_dl]
-        for idx, (tx_dl, mode, ml) in enumerate(combos):
+        combos = [(tx_dl, mode, None, ml) for tx_dl in TX_DLS for mode in MODES for ml in (None, 4, 8, 12, 16, 64) if ml is None or ml <= tx_dl]
+        # asymmetric addresses whose transmit and receive halves differ in prefix size
+        combos += [(tx_dl, tm, rm, None) for tx_dl in TX_DLS for (tm, rm) in (('Extended_11bits', 'Normal_11bits'), ('NormalFixed_29bits', 'Mixed_11bits'),
+                                                                                 ('Normal_29bits', 'Extended_29bits'), ('Mixed_29bits', 'Normal_11bits'))]
+        for idx, (tx_dl, mode, rxmode, ml) in enumerate(combos):
             if idx % nshards != shard:
                 continue
-            if quick and mode not in ('Normal_11bits', 'Extended_29bits', 'Mixed_29bits') and ml not in (None, 16):
+            if quick and rxmode is None and mode not in ('Normal_11bits', 'Extended_29bits', 'Mixed_29bits') and ml not in (None, 16):
                 continue
             a = rand_address(rng, mode)
+            rxa = mirror(rand_address(rng, rxmode)) if rxmode else None
             plen = 1 if mode.startswith(('Extended', 'Mixed')) else 0
             cap = (7 - plen) if tx_dl == 8 else (tx_dl - 2 - plen)
             for n in sorted({1, 6 - plen, 7 - plen, 8 - plen, cap - 1, cap, cap + 1, cap + 2}):
@@ -127,9 +131,9 @@ def run_shard(campaign, shard, nshards, seed, tier):
                         params['tx_data_min_length'] = ml
                     if tx_dl > 8:
                         params['can_fd'] = True
-                    case = {'insts': [{'txa': a, 'rxa': None, 'params': params}],
+                    case = {'insts': [{'txa': a, 'rxa': rxa, 'params': params}],
                             'ops': [[0, 'send', tat, hx(bytes(range(1, n + 1)))], [0, 'proc', 1, 1]]}
-                    part.hist('functional', '%s/tx_dl=%d/%s' % (tat, tx_dl, 'fits' if n <= cap else 'toolong'))
+                    part.hist('functional', '%s/tx_dl=%d/%s%s' % (tat, tx_dl, 'fits' if n <= cap else 'toolong', '/asym' if rxmode else ''))
                     part.distinct(case)
                     lc.run_case(part, campaign, case, oracle=lambda c, il, ii, cap=cap, n=n, tat=tat, a=a: oracle_functional(c, il, ii, cap, n, tat, a),
                                 theorem=THEOREMS + '.C09_func')
